@@ -229,7 +229,7 @@ pub fn run_c12(env: &Env) -> i32 {
         let subset: Vec<&'static str> = vnames.iter().enumerate().filter(|(i, _)| mask & (1 << i) != 0).map(|(_, n)| *n).collect();
         use proptest::prelude::*;
         let mk = || {
-            let per: Vec<_> = subset.iter().map(|n| (Just(n.to_string()), proptest::collection::vec((findings::file_name(), findings::line_set()), 1..4))).collect();
+            let per: Vec<_> = subset.iter().map(|n| (Just(n.to_string()), findings::files(false))).collect();
             per.prop_shuffle()
         };
         let name = format!("c12-vuln-subset-{mask}");
